@@ -69,7 +69,7 @@ TERM_REMAINDER = [
 
 EMU_UNITS = ["emu_ascii", "emu_atascii", "emu_avatar", "emu_viewdata", "emu_mode7", "emu_ctrla", "emu_pcboard", "emu_renegade", "emu_petscii"]
 PROPS["C01"] = dict(
-    units=["term_core"] + EMU_UNITS,
+    units=["term_core", "ansi_cmds"] + EMU_UNITS,
     kani_quick=["c01_ctrla_table_len", "c01_parse_next_number_nonneg", "std_spec_char_range_contains"],
     trusted_base=TERM_TRUST, unverified_remainder=TERM_REMAINDER,
     explanation="Every screen operation the emulations are built from (Line, Layer, TerminalState, Buffer geometry, the Caret "
@@ -78,14 +78,14 @@ PROPS["C01"] = dict(
                 "(term_step) with a bounded growth per character.",
 )
 PROPS["C09"] = dict(
-    units=["term_core"] + EMU_UNITS,
+    units=["term_core", "ansi_cmds"] + EMU_UNITS,
     trusted_base=TERM_TRUST, unverified_remainder=TERM_REMAINDER + ["Viewdata / Mode 7 fixed-grid frame conditions (unit small_emus)"],
     explanation="caret_in_view (column in 0..width, row within the last `height` rows) is a postcondition of every clamping "
                 "operation (limit_caret_pos and everything that ends in it, clear_screen, ff) and is preserved by the relative "
                 "moves (lf, bs, print_char, print_value).",
 )
 PROPS["C03"] = dict(
-    units=["term_core"],
+    units=["term_core", "ansi_cmds", "emu_avatar"],
     trusted_base=TERM_TRUST, unverified_remainder=TERM_REMAINDER + ["macro recursion, hex macros, sixel repeat/raster, font loaders (units pending)"],
     explanation="Every loop of the screen operations has a decreases measure (termination proved) and iterates over ranges bounded "
                 "by the margins / screen / row count, not by numeric parameters; erase_charcter's count is proved clamped to the width.",
